@@ -1,6 +1,7 @@
 import PandoraModel.Properties.C04
 import PandoraModel.Properties.C04C02
 import PandoraModel.Properties.C04Kernels
+import PandoraModel.Properties.C04KernelsComp
 open Pandora.C04
 -- the end-point tests of criteria.py equal the set statements
 #print axioms vmBit1_iff
@@ -63,3 +64,14 @@ open Pandora.C04
 #print axioms Pandora.C04Kernels.rightIterPx_eq
 #print axioms Pandora.C04Kernels.maskInvalidPx_eq
 #print axioms Pandora.C04Kernels.maskBorderPx_eq
+-- the generated pieces composed as the source composes them (Properties/C04KernelsComp.lean)
+#print axioms Pandora.C04Kernels.pyRange_bounds
+#print axioms Pandora.C04Kernels.gatherCol_eq
+#print axioms Pandora.C04Kernels.rightMaskCell_eq
+#print axioms Pandora.C04Kernels.genStep_eq
+#print axioms Pandora.C04Kernels.genRightLoop_eq
+#print axioms Pandora.C04Kernels.genRightLoop_closed
+#print axioms Pandora.C04Kernels.genStage1_eq
+#print axioms Pandora.C04Kernels.genFinalMask_eq
+#print axioms Pandora.C04Kernels.genFinalMask_spec
+#print axioms Pandora.C04Kernels.genFinalMask_interior
